@@ -110,6 +110,23 @@ func c15SSH(c *Ctx, pxs []*c15Proxier) {
 		pos := p.InstrPos(ncc)
 		c.Check(px.leg(ncc.Call.Args[0], 0) == legBackend, "ssh-credentials", "backend ssh client runs over the dialled connection", pos, "", "the backend SSH handshake does not run over the connection the director dialled: "+Render(ncc.Call.Args[0]))
 		cfg, _ := ncc.Call.Args[2].(*ssa.Alloc)
+		// the configuration may be built by a helper from its arguments (backendClientConfig(cm.User(), string(password)))
+		subst := func(v ssa.Value) ssa.Value { return v }
+		if hc, isCall := ncc.Call.Args[2].(*ssa.Call); isCall && cfg == nil {
+			if hf := hc.Call.StaticCallee(); hf != nil && InRepo(hf) && hf.Blocks != nil && len(Returns(hf)) == 1 {
+				if a, isA := RetVals(Returns(hf)[0])[0].(*ssa.Alloc); isA {
+					cfg = a
+					subst = func(v ssa.Value) ssa.Value {
+						if pr, ok := v.(*ssa.Parameter); ok && pr.Parent() == hf {
+							if i := paramIdx(pr); i >= 0 && i < len(hc.Call.Args) {
+								return hc.Call.Args[i]
+							}
+						}
+						return v
+					}
+				}
+			}
+		}
 		userOK, authOK := false, false
 		if cfg != nil {
 			for _, r := range *cfg.Referrers() {
@@ -124,7 +141,7 @@ func c15SSH(c *Ctx, pxs []*c15Proxier) {
 					}
 					switch fieldNameOf(fa) {
 					case "User":
-						if uc, ok := st.Val.(*ssa.Call); ok && uc.Call.IsInvoke() && uc.Call.Method.Name() == "User" && uc.Call.Value == ssa.Value(cb.Params[0]) {
+						if uc, ok := subst(st.Val).(*ssa.Call); ok && uc.Call.IsInvoke() && uc.Call.Method.Name() == "User" && uc.Call.Value == ssa.Value(cb.Params[0]) {
 							userOK = true
 						} else {
 							userOK = false
@@ -133,7 +150,7 @@ func c15SSH(c *Ctx, pxs []*c15Proxier) {
 						els := variadicArgs(st.Val)
 						if len(els) == 1 {
 							if pc, ok := els[0].(*ssa.Call); ok && CalleeIs(pc, "golang.org/x/crypto/ssh", "Password") {
-								if cv, ok := pc.Call.Args[0].(*ssa.Convert); ok && cv.X == ssa.Value(cb.Params[1]) {
+								if cv, ok := subst(pc.Call.Args[0]).(*ssa.Convert); ok && cv.X == ssa.Value(cb.Params[1]) {
 									authOK = true
 								}
 							}
